@@ -11,7 +11,7 @@ echo "== demo on pristine HEAD"; run_demo $wt > /tmp/seed-$id-pristine.log 2>&1;
 if ! git -C $wt apply $dir/patch.diff 2>/dev/null; then
   git -C $wt apply --3way $dir/patch.diff || { echo "PATCH DOES NOT APPLY"; exit 8; }
 fi
-echo "== baseline with the change"; /venv/bin/python /tmp/baseline_check.py $wt | tail -2
+echo "== baseline with the change"; /venv/bin/python /verif/tools/baseline.py $wt | tail -2
 echo "== demo with the change"; run_demo $wt > /tmp/seed-$id-patched.log 2>&1; echo "rc=$? $(tail -1 /tmp/seed-$id-patched.log)"
 cd /verif
 for c in $id "$@"; do
